@@ -467,6 +467,9 @@ where
             (
                 this.flags.contains(Flags::DRAINING),
                 !is_upgrade
+                    // a payload still being received while requests are queued belongs to the
+                    // last queued request, not to the request this response answers
+                    && this.messages.is_empty()
                     && should_close_for_unread_payload(
                         this.payload.as_ref(),
                         *this.payload_drainable,
@@ -517,6 +520,9 @@ where
             (
                 this.flags.contains(Flags::DRAINING),
                 !is_upgrade
+                    // a payload still being received while requests are queued belongs to the
+                    // last queued request, not to the request this response answers
+                    && this.messages.is_empty()
                     && should_close_for_unread_payload(
                         this.payload.as_ref(),
                         *this.payload_drainable,
